@@ -185,6 +185,40 @@ theorem timeout_failure_is_own (limit key : Nat) (probe internal : Bool) (evs : 
   simp only [hpc] at h
   exact h.2.2 rfl
 
+/-- **An expired request is never silent.**  Whatever happened, a request
+whose own deadline has passed (on the clock — `EffectiveError`, not only once
+the context's timer has fired) and that terminated wrote exactly one reply. -/
+theorem expired_never_silent (limit key : Nat) (probe internal : Bool) (evs : List PEvent) :
+    let p := evs.foldl (Proc.apply limit) (procInit key probe internal)
+    p.ctx = .deadline → ∀ o, p.pc = .terminated o → p.writes = 1 := by
+  have h := each_process_one_outcome limit key probe internal evs
+  simp only at h ⊢
+  intro hd o hpc
+  rcases h.2 o hpc with h1 | ⟨_, _, hc⟩
+  · exact h1.1
+  · rw [hd] at hc; cases hc
+
+/-- `EffectiveError` is nil only for a context that published no error and
+whose deadline (if any) has not been reached: the window "deadline passed,
+timer not fired yet" counts as expired. -/
+theorem effective_error_spec (err : CtxErr) (hasDeadline clockPast : Bool) :
+    (effectiveError err hasDeadline clockPast = .none ↔ err = .none ∧ ¬ (hasDeadline = true ∧ clockPast = true)) ∧
+    (err ≠ .none → effectiveError err hasDeadline clockPast = err) ∧
+    effectiveError .none true true = .deadline := by
+  cases err <;> cases hasDeadline <;> cases clockPast <;> simp [effectiveError]
+
+/-- the two places the cache notices an expired request (leader elected as
+the budget ends; follower woken by its leader or by its own Done) both end in
+exactly one SERVFAIL and no downstream resolution, for a late timer as for a
+fired one. -/
+theorem expired_scenarios_answer_servfail (limit : Nat) (leader byLeader : Bool) (err : CtxErr)
+    (h : effectiveError err true true = .deadline) :
+    (procScenario limit leader (effectiveError err true true) byLeader).pc = .terminated .timeoutFail ∧
+    (procScenario limit leader (effectiveError err true true) byLeader).writes = 1 := by
+  rw [h]
+  cases leader <;> cases byLeader <;>
+    simp [procScenario, Proc.step, Proc.headCall, Proc.finish, stopCanceled, Outcome.writes]
+
 /-! ## the composed system: all interleavings of any number of requests -/
 
 /-- every request of the composed system obeys the single-request theorems -/
@@ -297,6 +331,41 @@ theorem served_job_at_most_one_datagram (d i h burst : Bool) (cs : List Call) :
     · exact Nat.le_refl _
     · exact Nat.zero_le _
   · exact a
+
+/-! ## the worker's TX burst: finished replies do not wait out a resolution -/
+
+theorem worker_run_append (w : Worker) (xs ys : List WEv) : w.run (xs ++ ys) = (w.run xs).run ys := by
+  induction xs generalizing w with
+  | nil => rfl
+  | cons x xs ih => simp only [List.cons_append, Worker.run]; exact ih _
+
+/-- **No staged reply is held across a slow path**, and **every reply leaves
+exactly once, in order**: for every sequence of fast-path replies, slow-path
+requests and idle moments of a worker, no reply is still staged while a later
+request resolves, and `sent ++ staged` is exactly the list of replies produced. -/
+theorem staged_replies_leave_before_slow_path (evs : List WEv) :
+    (({} : Worker).run evs).held = [] ∧
+    (({} : Worker).run evs).sent ++ (({} : Worker).run evs).staged = evs.filterMap WEv.reply := by
+  suffices h : ∀ (w : Worker), w.held = [] →
+      (w.run evs).held = [] ∧ (w.run evs).sent ++ (w.run evs).staged = w.sent ++ w.staged ++ evs.filterMap WEv.reply by
+    simpa using h {} rfl
+  induction evs with
+  | nil => intro w hw; exact ⟨hw, by simp [Worker.run]⟩
+  | cons e es ih =>
+    intro w hw
+    cases e with
+    | quick id =>
+      have := ih (w.step (.quick id)) (by simpa [Worker.step] using hw)
+      simpa [Worker.run, Worker.step, WEv.reply, List.append_assoc] using this
+    | slow id =>
+      have := ih (w.step (.slow id)) (by simpa [Worker.step] using hw)
+      simpa [Worker.run, Worker.step, WEv.reply, List.append_assoc] using this
+    | idle =>
+      have := ih (w.step .idle) (by simpa [Worker.step] using hw)
+      have hf : (WEv.idle :: es).filterMap WEv.reply = es.filterMap WEv.reply := by
+        simp [List.filterMap_cons, WEv.reply]
+      rw [hf]
+      simpa [Worker.run, Worker.step, List.append_assoc] using this
 
 /-! ## Resolver.groupLookup: a failed leader's error stays local -/
 
